@@ -89,6 +89,13 @@ CHECKS["C16"] = ("Coq model Run/Outer.v of the magic members and body conversion
          "items of every struct style (0-6 fields), enums (0-6 mixed variants, discriminants), unions, generics with lifetimes / types / consts / where-clauses, every visibility form: pass-through members compared with the "
          "element's parts read directly from syn, kind / style / count of data and fields, Fields<syn::Field> re-printed against the original tokens.",
          "Coq proof (accumulation lemmas, for any element converters) + projection specification evaluated on the implementation's output; per-run differential correspondence")
+CHECKS["C20"] = ("PARTIAL by nature: that emitted code type-checks is decided by rustc and is OBSERVED, not proved. Proved (Coq, Properties/C20.v over Options/Emit.v): every local the emitted functions declare next to the "
+         "receiver's field locals starts with a double underscore, hence is disjoint from all ordinary field / variant / generic names (raw identifiers and option words included) and the locals of one function are pairwise "
+         "distinct. Observed on every run: (1) a crate generated from the seed - 150 (quick) / 600 (thorough) accepted receivers over the option space of C01 / C09 / C16, six derives, generics in every position, adversarial "
+         "names, each in a module shadowing prelude variants / prelude types / vec! and format! / crate names - compiled against /repo's working tree as a crate depending on darling ONLY, every rustc error mapped back to its "
+         "receiver; (2) three callables referring to generated locals must be rejected by rustc; (3) the inventory of the code derive::* emits for the same declarations: every global path rooted at ::darling, every binder a "
+         "field, a double-underscore local listed in Options/Emit.v or a known inner-scope binder, no unqualified type / variant / macro name. The compiled corpora of C01 / C09 / C16 (233 receivers) are built by every check as well.",
+         "Coq proof of the hygiene clause + compilation of generated receiver crates (rustc as oracle) + emitted-code inventory through derive::*")
 CHECKS["C01"] = (RECV + "The property is the executable per-FIELD specification Spec/C01.v `expected` (comprehensions over the input: no pass, no seen flags, no accumulator), evaluated in Coq on the value the real derived "
          "code returned for 150 compiled corpus receivers x receiver-directed mistake-free inputs; model and code are compared on every case. Theorems so far: initial state; the loop-invariant theorems are in progress (see DESIGN.md).",
          "Coq model + per-field executable specification evaluated on the implementation's output; per-run differential correspondence against compiled receivers")
@@ -98,7 +105,7 @@ CHECKS["C02"] = (RECV + "The property is Spec/C01.v: parsing fails iff `expected
 CHECKS["C07"] = (RECV + "Theorems: every integer conversion and the default dispatchers are total for any non-panicking hooks. Every corpus receiver is run under catch_unwind on mistake-free, faulty and degenerate inputs "
          "(empty / malformed lists, literals, deep nesting, 44-digit integers), from_none and nested-literal position, and compared with the model; panic-site inventory shared with C06.",
          "Coq model + totality lemmas; per-run differential correspondence under catch_unwind; panic-site inventory")
-PARTIAL = {"C07": " PARTIAL: stack exhaustion at extreme nesting and debug-build arithmetic overflow are run-time behaviour the model cannot exhibit; element-level entry points are covered by C08/C16's machinery."}
+PARTIAL = {"C20": " PARTIAL: rustc's type checking cannot be modelled in Coq here; the compile clause is observed on generated crates, the hygiene clause is proved.", "C07": " PARTIAL: stack exhaustion at extreme nesting and debug-build arithmetic overflow are run-time behaviour the model cannot exhibit; element-level entry points are covered by C08/C16's machinery."}
 def chk(pid):
     text, tech = CHECKS[pid]
     return {"property_id": pid, "quick_cmd": "./check %s --tier quick" % pid, "thorough_cmd": "./check %s --tier thorough" % pid,
